@@ -23,7 +23,7 @@ def gen_base(rng, sid, family="base", n=None, q=None, refresh="auto", pop=None, 
     pop = rng.random() < 0.25 if pop is None else pop
     nclients = clients if clients is not None else rng.choice([1, 1, 2, 3])
     cfg = {"q": q, "refresh": refresh, "pop": pop, "notifier": rng.random() < 0.7, "width": rng.choice([120, 160, 200]),
-           "delay": False, "outfault": 0, "ctx": False}
+           "delay": False, "outfault": 0, "ctx": False, "autotoo": False}
     progs = [[] for _ in range(nclients)]
     ncols = [rng.choice([0, 1, 1, 2]), rng.choice([0, 0, 1])]
     bars = []
@@ -38,7 +38,7 @@ def gen_base(rng, sid, family="base", n=None, q=None, refresh="auto", pop=None, 
         if pop and rng.random() < 0.25:
             op["nopop"] = True
         if rng.random() < 0.3:
-            op["prio"] = rng.randint(0, 4)
+            op["prio"] = rng.randint(-2, 4)
         if ext and rng.random() < 0.2:
             op["ext"] = rng.randint(1, 2)
             op["extrev"] = rng.random() < 0.3
@@ -71,7 +71,7 @@ def gen_base(rng, sid, family="base", n=None, q=None, refresh="auto", pop=None, 
             elif r < 0.7:
                 steps.append({"op": "get", "b": name})
             elif r < 0.8:
-                steps.append({"op": "prio", "b": name, "n": rng.randint(0, 5), "flag": rng.random() < 0.4})
+                steps.append({"op": "prio", "b": name, "n": rng.randint(-3, 5), "flag": rng.random() < 0.4})
             elif r < 0.85:
                 steps.append({"op": "refill", "b": name, "n": rng.randint(0, 2)})
             elif r < 0.9 and total <= 0:
@@ -257,11 +257,24 @@ def family(name, rng, sid):
     if name == "stop":
         return gen_base(rng, sid, "stop", allow_stop=True, allow_queue=rng.random() < 0.3)
     if name == "manual":
-        return gen_base(rng, sid, "manual", refresh="manual", allow_stop=rng.random() < 0.3)
+        sc = gen_base(rng, sid, "manual", refresh="manual", allow_stop=rng.random() < 0.3)
+        sc["cfg"]["autotoo"] = rng.random() < 0.5
+        return sc
     if name == "none":
         return gen_base(rng, sid, "none", refresh="none", allow_stop=rng.random() < 0.3)
     if name == "fault":
         return gen_base(rng, sid, "fault", fault=True)
+    if name == "stoppop":
+        # pop-completed container shut down while bars are at staggered stages: no-pop, remove-on-complete and
+        # queued bars make the bar set change in several consecutive shutdown frames
+        sc = gen_base(rng, sid, "stoppop", pop=True, n=rng.randint(2, 4), allow_stop=True, allow_queue=rng.random() < 0.4)
+        for o in sc["clients"][0]:
+            if o["op"] == "add":
+                if rng.random() < 0.5:
+                    o["nopop"] = True
+                if rng.random() < 0.5:
+                    o["rm"] = True
+        return sc
     if name == "delay":
         sc = gen_base(rng, sid, "delay")
         sc["cfg"]["delay"] = True
